@@ -202,8 +202,23 @@ def rhumb_near_parallel_as_recorded(m):
         return False
     return closure <= 1.5 * rec[0] + 1000 and asym <= 1.5 * rec[1] + 1000 and split <= 1.5 * rec[2] + 1000
 
+def shellless_polygon_bounding_rect(m):
+    """bounding_rect (f64 and i32 forms) of a geometry that contains a Polygon WITHOUT exterior ring but with interior rings:
+    Polygon::bounding_rect looks at the exterior only, so the hole's coordinates - which coords_iter does traverse - are ignored."""
+    def has(g):
+        if not isinstance(g, dict):
+            return False
+        if g.get("t") == "Polygon":
+            return g.get("ext") == [] and len(g.get("holes", [])) > 0
+        if g.get("t") == "MultiPolygon":
+            return any(p.get("ext") == [] and len(p.get("holes", [])) > 0 for p in g.get("ps", []))
+        if g.get("t") == "GeometryCollection":
+            return any(has(x) for x in g.get("gs", []))
+        return False
+    return m.get("sub") in ("bounding_rect", "other_scalar_types", "extremes") and has(m.get("case", {}).get("g")) and "bounding_rect" in str(m.get("detail", {}).get("what", "")) + m.get("sub", "")
+
 
 PREDS = {f.__name__: f for f in [convex_star, mls_even_shared_endpoint, sweep_inexact_crossing, gc_all_members_empty, monotone_tjunction_panic, stitch_hole_chain,
                                      segmentize_zero_length, segmentize_repeated_vertex, segmentize_piece_count_off_by_one, knearest_hull_not_simple,
                                      hav_closest_pole_of_circle, hav_closest_arc_over_pole, hav_closest_foot_at_end_precision, hav_closest_other_spelling,
-                                     rhumb_near_parallel_as_recorded]}
+                                     rhumb_near_parallel_as_recorded, shellless_polygon_bounding_rect]}
